@@ -12,8 +12,6 @@ use crate::Args;
 use bytes::Bytes;
 use explore::report::{Acc, Report, Tier};
 use explore::Fnv;
-use h3::frame::FrameStream;
-use h3::stream::BufRecvStream;
 use refimpl::frames as rf;
 use refimpl::h3auto as auto;
 use serde_json::{json, Value};
@@ -104,22 +102,19 @@ pub fn server_run(history: &[Ev], drain: usize) -> Outcome {
                         net.raw_fin(CLIENT, id);
                     }
                     Ev::Accept => {
-                        let r = std::future::poll_fn(|cx| Poll::Ready(conn.poll_accept_request_stream(cx))).await;
+                        // one poll of the REAL accept() (its None branch sends the final GOAWAY itself)
+                        let r = {
+                            let mut f = Box::pin(conn.accept());
+                            std::future::poll_fn(|cx| Poll::Ready(std::future::Future::poll(f.as_mut(), cx))).await
+                        };
                         step.accept = Some(match r {
                             Poll::Pending => AcceptResult::Pending,
-                            Poll::Ready(Ok(Some(s))) => {
-                                let fs = FrameStream::new(BufRecvStream::new(s));
-                                let id = fs.id().into_inner();
-                                held.push_back((id, conn.create_resolver(fs)));
+                            Poll::Ready(Ok(Some(resolver))) => {
+                                let id = resolver.frame_stream.id().into_inner();
+                                held.push_back((id, resolver));
                                 AcceptResult::Stream(id)
                             }
-                            Poll::Ready(Ok(None)) => {
-                                // what `accept()` does before answering None
-                                if let Err(e) = conn.shutdown(0).await {
-                                    step.shutdown = Some(conn_class(&e));
-                                }
-                                AcceptResult::None
-                            }
+                            Poll::Ready(Ok(None)) => AcceptResult::None,
                             Poll::Ready(Err(e)) => AcceptResult::Err(conn_class(&e)),
                         });
                     }
@@ -336,6 +331,8 @@ fn histories(len: usize) -> Vec<Vec<Ev>> {
 pub enum CEv {
     Recv(u64),
     Send,
+    /// the client application starts its own graceful shutdown (client::Connection::shutdown(0))
+    Shutdown,
 }
 
 #[derive(Debug, Clone, Default, PartialEq, Eq)]
@@ -366,10 +363,33 @@ pub fn client_run(history: &[CEv], starve_grease: bool) -> COutcome {
                 Err(_) => return,
             };
             let out2 = out.clone();
+            // the connection object lives in the driver task: a shutdown request reaches it through a flag
+            let want_shutdown = shared(false);
+            let driver_waker: Shared<Option<std::task::Waker>> = shared(None);
+            let (want2, dw2) = (want_shutdown.clone(), driver_waker.clone());
             sp.spawn("driver", async move {
-                for _ in 0..2 {
-                    let e = std::future::poll_fn(|cx| conn.poll_close(cx)).await;
-                    out2.borrow_mut().driver.push(conn_class(&e));
+                let mut reported = 0;
+                while reported < 2 {
+                    let e = std::future::poll_fn(|cx| {
+                        if *want2.borrow() {
+                            return Poll::Ready(None);
+                        }
+                        *dw2.borrow_mut() = Some(cx.waker().clone());
+                        conn.poll_close(cx).map(Some)
+                    })
+                    .await;
+                    match e {
+                        Some(e) => {
+                            out2.borrow_mut().driver.push(conn_class(&e));
+                            reported += 1;
+                        }
+                        None => {
+                            *want2.borrow_mut() = false;
+                            if let Err(e) = conn.shutdown(0).await {
+                                out2.borrow_mut().driver.push(format!("shutdown:{}", conn_class(&e)));
+                            }
+                        }
+                    }
                 }
                 std::future::pending::<()>().await;
                 drop(conn);
@@ -385,6 +405,15 @@ pub fn client_run(history: &[CEv], starve_grease: bool) -> COutcome {
                     CEv::Recv(id) => {
                         net.raw_write(SERVER, SERVER_CTRL, &rf::encode(rf::GOAWAY, None, refimpl::varint::encode(*id).unwrap().len() as u64, None, &refimpl::varint::encode(*id).unwrap()));
                         // let the driver consume it
+                        for _ in 0..4 {
+                            yield_now().await;
+                        }
+                    }
+                    CEv::Shutdown => {
+                        *want_shutdown.borrow_mut() = true;
+                        if let Some(w) = driver_waker.borrow_mut().take() {
+                            w.wake();
+                        }
                         for _ in 0..4 {
                             yield_now().await;
                         }
@@ -456,7 +485,11 @@ pub fn judge_client(history: &[CEv], starve: bool, o: &COutcome) -> Vec<(String,
             }
         }
     }
+    let own_shutdown_at = history.iter().position(|e| *e == CEv::Shutdown);
     for (i, r, opened) in &o.sends {
+        if own_shutdown_at.map(|p| p < *i).unwrap_or(false) {
+            continue; // what a client may start after its own shutdown is not part of the property
+        }
         let after_error = id_error_at.map(|e| e < *i).unwrap_or(false);
         if after_error {
             if r == "ok" {
@@ -508,6 +541,18 @@ fn client_histories() -> Vec<Vec<CEv>> {
                     h.push(CEv::Recv(s[g]));
                 }
             }
+            // the same history with the client's own shutdown() before the first and before the last GOAWAY
+            // (a received GOAWAY is validated and obeyed all the same)
+            if mask == 0 && !s.is_empty() {
+                let recv_positions: Vec<usize> = h.iter().enumerate().filter(|(_, e)| matches!(e, CEv::Recv(_))).map(|(i, _)| i).collect();
+                let mut ps = vec![recv_positions[0], *recv_positions.last().unwrap()];
+                ps.dedup();
+                for p in ps {
+                    let mut v = h.clone();
+                    v.insert(p, CEv::Shutdown);
+                    out.push(v);
+                }
+            }
             out.push(h);
         }
     }
@@ -520,7 +565,7 @@ pub fn run(args: &Args) -> i32 {
     let mut rep = Report::new("C08", args.tier, args.seed, "model_checking");
     rep.exhaustive = true;
     rep.rule = format!(
-        "server: every history of length <= {hl} over {{arrive(0), arrive(4), arrive(8), arrive(12) (each at most once, any order), accept (poll-level, as accept() does incl. the final shutdown(0)), shutdown(0), shutdown(1), shutdown(2), shutdown(usize::MAX), serve-oldest}}, each followed by a drain of 6 accepts, executed on a real server connection over simnet; histories are enumerated explicitly and not deduplicated. The GOAWAY identifiers are read off the server's control stream by refimpl; resets / stop_sendings are read off the transport. Invariants: identifiers non-increasing and request-stream ids; accepted => id < every identifier sent; rejected => reset AND stop_sending with H3_REQUEST_REJECTED, never returned, id >= identifier in force; everything that arrived is returned or rejected; no 'no more requests' while an acceptable request waits; accepted requests can be served. client: every sequence of <= 3 received GOAWAY identifiers over {{0,4,8,1,2,3,2^62-4,2^62-1}} x send_request attempts at every subset of the gaps x grease stream granted / starved. states = distinct histories; non-trivial = histories with a shutdown and an arrival."
+        "server: every history of length <= {hl} over {{arrive(0), arrive(4), arrive(8), arrive(12) (each at most once, any order), accept (poll-level, as accept() does incl. the final shutdown(0)), shutdown(0), shutdown(1), shutdown(2), shutdown(usize::MAX), serve-oldest}}, each followed by a drain of 6 accepts, executed on a real server connection over simnet; histories are enumerated explicitly and not deduplicated. The GOAWAY identifiers are read off the server's control stream by refimpl; resets / stop_sendings are read off the transport. Invariants: identifiers non-increasing and request-stream ids; accepted => id < every identifier sent; rejected => reset AND stop_sending with H3_REQUEST_REJECTED, never returned, id >= identifier in force; everything that arrived is returned or rejected; no 'no more requests' while an acceptable request waits; accepted requests can be served. client: every sequence of <= 3 received GOAWAY identifiers over {{0,4,8,1,2,3,2^62-4,2^62-1}} x send_request attempts at every subset of the gaps, and the client's own shutdown(0) before the first / before the last GOAWAY, x grease stream granted / starved. states = distinct histories; non-trivial = histories with a shutdown and an arrival."
     );
     rep.assumptions = vec!["the server application is one task, so the history order is the execution order (no schedule dimension on the server side)".into(), "RFC 9114 5.2: the identifier in a server GOAWAY declares requests with that id or greater rejected".into()];
     rep.bound_note = format!("server histories up to length {hl}; client GOAWAY sequences up to length 3");
@@ -563,7 +608,7 @@ pub fn run(args: &Args) -> i32 {
                 }
                 acc.outcomes.insert(explore::fnv_str(&format!("{:?}{:?}", o.sends.iter().map(|s| &s.1).collect::<Vec<_>>(), o.close_calls)) ^ 0x77);
                 for (sig, msg) in judge_client(h, starve, &o) {
-                    acc.violation(sig, msg, (0, h.len()), || json!({"kind":"client","starve":starve,"history":h.iter().map(|e| match e { CEv::Recv(i) => json!(["recv", i.to_string()]), CEv::Send => json!(["send"]) }).collect::<Vec<_>>()}));
+                    acc.violation(sig, msg, (0, h.len()), || json!({"kind":"client","starve":starve,"history":h.iter().map(|e| match e { CEv::Recv(i) => json!(["recv", i.to_string()]), CEv::Send => json!(["send"]), CEv::Shutdown => json!(["shutdown"]) }).collect::<Vec<_>>()}));
                 }
             }
         }
@@ -603,6 +648,7 @@ pub fn replay(r: &Value) -> i32 {
         Some("client") => {
             let h: Vec<CEv> = r["history"].as_array().unwrap().iter().map(|e| match e[0].as_str().unwrap() {
                 "recv" => CEv::Recv(e[1].as_str().unwrap().parse().unwrap()),
+                "shutdown" => CEv::Shutdown,
                 _ => CEv::Send,
             }).collect();
             let starve = r["starve"].as_bool().unwrap();
